@@ -170,12 +170,15 @@ def step (s : DState) (op : List String) : DState × String :=
 
 def model : Model DState := { init := {}, step := exact step }
 
-/-- `C19pkg`: the source-level call-graph probe.  Relational: any well-formed answer is a legal
-observation (whether the datagram queue is offered is decided by the harness monitor and recorded
-as a known finding; a future fix that wires the queue in must not break the correspondence). -/
+/-- `C19pkg`: the source-level call-graph probe, exact on the two facts the model states about
+`Components::packages()`: the 1-RTT source tuple names the datagram flow iff `oneRttSources` contains
+`.datagrams`, the 0-RTT tuple iff `zeroRttSources` does (the remaining fields are informative). -/
 def pkgStep (_ : Unit) (op obs : List String) : Unit × Option String :=
-  match op, kvNat obs "found", kvNat obs "offered", kvNat obs "callers" with
-  | ["packages"], some _, some _, some _ => ((), none)
+  match op, kvNat obs "found", kvNat obs "onertt", kvNat obs "zerortt" with
+  | ["packages"], some _, some o, some z =>
+    let mo := if GmQuic.Datagram.oneRttSources.contains .datagrams then 1 else 0
+    let mz := if GmQuic.Datagram.zeroRttSources.contains .datagrams then 1 else 0
+    if o = mo ∧ z = mz then ((), none) else ((), some s!"onertt={mo} zerortt={mz}")
   | _, _, _, _ => ((), some "BAD packages line")
 
 def pkgModel : Model Unit := { init := (), step := pkgStep }
